@@ -61,7 +61,15 @@ def state_before(prior, pre):
     return P
 
 
-def operations(tier):
+def operations(tier, backend=None):
+    ops = _operations(tier)
+    if backend == 'file-json':
+        # (a JSON object has string keys only: a json *file* archive cannot hold the int key, whatever happens)
+        ops = [o for o in ops if o[0] != 'set-intkey']
+    return ops
+
+
+def _operations(tier):
     ops = [
         ('set-new', ('set', 'k3', 'new3')),
         ('overwrite', ('set', 'k1', 'new1')),
@@ -83,6 +91,7 @@ def operations(tier):
         ('set-none', ('set', 'k3', None)),
         ('update-empty', ('update', ())),
         ('copy', ('copy',)),
+        ('set-intkey', ('set', 7, 'seven')),        # (a non-string key: dir_archive keeps the key itself in a second file)
     ]
     if tier == 'thorough':
         ops += [('set-big', ('set', 'k3', BIG)), ('overwrite-big', ('set', 'k1', BIG))]
@@ -190,6 +199,24 @@ def check_recovery(rec, P, Q, ctx, mid=(), written=()):
     return out
 
 
+def check_post(r, post_ops):
+    """after the crash another process stored something else (no faults): a fresh process must now see what it saw right
+    after the crash plus exactly that -- differential oracle, no hand-written expectation"""
+    out = []
+    rec1, rec2 = r['recovery'], r.get('recovery2')
+    for i, pr in enumerate(r.get('post_result') or [('exc', 'NoResult', '')]):
+        if pr[0] != 'ret':
+            out.append(('store-after-recovery-fails', {'exc': pr[1]}, 'after the crash, %r raised %s: %s' % (post_ops[min(i, len(post_ops) - 1)], pr[1], pr[2])))
+    if out:
+        return out
+    want = dict(rec1['asdict'][1])
+    for op in post_ops:
+        want = model_after(want, op)
+    bad = check_recovery(rec2, want, want, '')
+    return [('after-later-store-' + rule, extra, 'after the crash a fresh process saw %s; then another process did %r; now: %s' % (
+        _short(sorted(dict(rec1['asdict'][1]).items(), key=repr)), list(post_ops), detail)) for rule, extra, detail in bad]
+
+
 def _short(x):
     s = repr(x)
     return s if len(s) < 80 else s[:40] + '...' + s[-20:]
@@ -198,13 +225,16 @@ def _short(x):
 def _task(task):
     tier, backend, prior_name, opname, op = task[:5]
     pre = task[5] if len(task) > 5 else ()
+    opts = task[7] if len(task) > 7 else {}
     res = {'counts': collections.Counter(), 'violations': [], 'samples': [], 'nontrivial': 0, 'outcomes': set(),
            'caps': [], 'config': task[1:4]}
-    name = '%s prior=%s%s op=%s' % (backend, prior_name, ('+same-handle-first-did:%s' % (task[6],) if len(task) > 6 else '+same-handle-wrote-before') if pre else '', opname)
+    name = '%s prior=%s%s op=%s%s' % (backend, prior_name, ('+same-handle-first-did:%s' % (task[6],) if len(task) > 6 and task[6] else '+same-handle-wrote-before') if pre else '', opname,
+                                      ' [handles restored from one pickle; afterwards another process stores k9]' if opts else '')
     srv = fsgate.server()
     prior = PRIORS[prior_name]
     P = state_before(prior, pre)
     base = {'backend': backend, 'prior': prior, 'op': op, 'pre_ops': list(pre)}
+    base.update(opts)
 
     def run(mode, kill_at=-1, kill_short=0):
         spec = dict(base)
@@ -218,9 +248,11 @@ def _task(task):
     res['counts']['evaluations'] += 1
     res['counts']['histories'] += 1
     sigbase = {'backend': backend, 'op': opname, 'prior': prior_name}
-    if len(task) > 6:
+    if len(task) > 6 and task[6]:
         sigbase['first_op'] = task[6]
-    rep = {'backend': backend, 'prior': prior_name, 'opname': opname, 'op': list(op), 'pre_ops': [list(o) for o in pre]}
+    if opts:
+        sigbase['handle_via'] = opts.get('handle_via', 'constructor')
+    rep = {'backend': backend, 'prior': prior_name, 'opname': opname, 'op': list(op), 'pre_ops': [list(o) for o in pre], 'opts': opts}
     if log['result'] is None or log['result'][0] not in ('ret',):
         res['violations'].append(v(dict(sigbase, rule='operation-fails-without-crash'),
                                    '%s: operation failed without any fault: %r' % (name, log['result']), dict(rep, kill_at=None)))
@@ -249,6 +281,8 @@ def _task(task):
                 raise RuntimeError('nondeterminism not owned: %s was not killed at event %d (%s); events now %r' % (name, i, kind, r['events'][-3:]))
             found = check_recovery(r['recovery'], P, Q, name, mid=stages(P, op, Q)[1:-1],
                                    written=written_keys(op, {} if op[0] == 'syncclear' else P))
+            if opts.get('post_ops') and not found:
+                found = check_post(r, opts['post_ops'])
             res['outcomes'].add((kind, tuple(sorted(f[0] for f in found))))
             res['nontrivial'] += 1
             for rule, extra, detail in found:
@@ -270,13 +304,18 @@ def _fin(res, name):
     return res
 
 
+def BACKENDS_FAMILY(b):
+    from ..engines import archmc
+    return archmc.BACKENDS[b][0]
+
+
 def tasks_for(tier):
     tasks = []
     backs = BACKENDS_Q if tier == 'quick' else BACKENDS_Q + ['dir-memmode']
     for b in backs:
         for pn, prior in PRIORS.items():
             P = prior_dict(prior)
-            for opname, op in operations(tier):
+            for opname, op in operations(tier, b):
                 if not applicable(P, op):
                     continue
                 if tier == 'quick' and pn == 'one' and opname in ('popitem', 'setdefault-present', 'pop', 'popkeys-default', 'sync', 'update-empty'):
@@ -286,16 +325,25 @@ def tasks_for(tier):
                 tasks.append((tier, b, pn, opname, op, ()))
         # the crashing operation is not the first thing this handle does
         P = prior_dict(list(PRIORS['one']) + list(PRE))
-        for opname, op in operations(tier):
+        for opname, op in operations(tier, b):
             if not applicable(P, op) or op[0] == 'open':
                 continue
             if tier == 'quick' and opname not in ('set-new', 'overwrite', 'update', 'del', 'clear', 'dump', 'popkeys', 'sync-clear'):
                 continue
             tasks.append((tier, b, 'one', opname, op, PRE))
+        # handles restored from one pickle (a pickled cache / memoised function carries its archive so), the crash, and then
+        # another such process storing another key: what travels in a handle's state is shared by those processes
+        if BACKENDS_FAMILY(b) in ('dir', 'file'):
+            for opname, op in operations(tier, b):
+                if op[0] == 'open' or 'big' in opname or not applicable(prior_dict(PRIORS['one']), op):
+                    continue
+                if tier == 'quick' and opname not in ('set-new', 'set-intkey', 'overwrite', 'update', 'del'):
+                    continue
+                tasks.append((tier, b, 'one', opname, op, (), None, {'handle_via': 'pickle', 'post_ops': [('set', 'k9', 'post9')]}))
         if tier != 'thorough':
             # quick: the one pair family that re-uses per-process temporary names -- this process has already overwritten
             # the key once, and is killed while touching it again
-            for opname, op in operations(tier):
+            for opname, op in operations(tier, b):
                 if opname in ('overwrite', 'del', 'update', 'clear', 'dump'):
                     tasks.append((tier, b, 'one', opname, op, (('set', 'k1', 'mid1'),), 'overwrite'))
             continue
@@ -303,12 +351,12 @@ def tasks_for(tier):
         # handle, from two prior stores -- the second operation starts from whatever the first one left behind in the
         # handle and on disk (temporary names, cached state, open connections)
         for pn in ('one', 'churned'):
-            for name1, op1 in operations(tier):
+            for name1, op1 in operations(tier, b):
                 P0 = prior_dict(PRIORS[pn])
                 if op1[0] in ('open', 'popitem') or 'big' in name1 or not applicable(P0, op1):
                     continue
                 P = model_after(P0, op1)
-                for opname, op in operations(tier):
+                for opname, op in operations(tier, b):
                     if op[0] == 'open' or 'big' in opname or not applicable(P, op):
                         continue
                     tasks.append((tier, b, pn, opname, op, (op1,), name1))
@@ -336,8 +384,11 @@ def replay(doc):
     srv = fsgate.server()
     pre = [tuple(o) for o in doc.get('pre_ops', [])]
     P = state_before(PRIORS[pn], pre)
-    spec = {'backend': backend, 'prior': PRIORS[pn], 'op': op, 'pre_ops': pre, 'root': pool.fresh_dir('k'),
-            'mode': 'log' if doc.get('kill_at') is None else 'kill', 'kill_at': doc.get('kill_at') or -1, 'kill_short': doc.get('kill_short', 0)}
+    spec = dict(doc.get('opts') or {})
+    spec.update({'backend': backend, 'prior': PRIORS[pn], 'op': op, 'pre_ops': pre, 'root': pool.fresh_dir('k'),
+            'mode': 'log' if doc.get('kill_at') is None else 'kill', 'kill_at': doc.get('kill_at') or -1, 'kill_short': doc.get('kill_short', 0)})
+    if spec.get('post_ops'):
+        spec['post_ops'] = [tuple(o) for o in spec['post_ops']]
     r = srv.request({'cmd': 'crash', 'spec': spec})
     Q = model_after(P, op)
     if Q is None:
@@ -345,5 +396,7 @@ def replay(doc):
     print('killed:', r['killed'], 'recovery:', r['recovery'])
     found = check_recovery(r['recovery'], P if r['killed'] else Q, Q, '', mid=stages(P, op, Q)[1:-1] if r['killed'] else (),
                            written=written_keys(op, {} if op[0] == 'syncclear' else P))
+    if not found and spec.get('post_ops') and r['killed']:
+        found = check_post(r, spec['post_ops'])
     srv.close()
     return [({'rule': f[0]}, f[2]) for f in found]
